@@ -14,6 +14,7 @@ import json
 import os
 
 from checks.c16 import (FIXED_XML, XML_URI, XMLNS_URI, build_all, build_cases, doc_from_json, elements_preorder,
+                        fewer_findings, tags_from_tokens,
                         merge_text, parse_tokens, parse_tree, run_impl, sections, show_tokens, strip_doctype_ids,
                         tolerated_fix)
 
@@ -256,11 +257,25 @@ def run(ck):
         m = sections(ser_out[i])
         problems = []
         if m.get("SER") != sec["SER"]:
-            problems.append("serialization")
+            model_ser = "".join(chr(int(c)) for c in m.get("SER", "").split())
+            if ser.replace("&#13;", "\r").replace("&#xD;", "\r") == model_ser:
+                tolerated_fix(ck, TOGGLES["D"])             # CR is now written as a character reference
+            elif not plain_uris(tree1):
+                tolerated_fix(ck, TOGGLES["E"] + " (serialization not compared for such URIs)")
+            else:
+                problems.append("serialization")
         m2 = sections(tok2_out[i])
         if m2.get("TREE") != sec["TREE2"] or m2.get("ERRS") != sec["ERRS2"].split()[1]:
-            problems.append("second tree")
-        if not problems and not has_cr_or_nul(tree1) and plain_uris(tree1) and "\ufeff" not in ser:
+            fixed = None
+            if m2.get("TREE") is not None:
+                fixed = fewer_findings(tags_from_tokens(parse_tokens(sec["TOKS2"])), parse_tree(sec["TREE2"]),
+                                       parse_tree(m2["TREE"]))
+            if fixed:
+                tolerated_fix(ck, fixed + " (second parse)")
+            else:
+                problems.append("second tree")
+        tags_ok = "tags_ok=1" in m.get("FLAGS", "")     # written tags outside the C16 classes (pinned tokenizer stage)
+        if not problems and tags_ok and not has_cr_or_nul(tree1) and plain_uris(tree1) and "\ufeff" not in ser:
             # what the model says the items are lexed into == what the tokenizer really delivered
             stats["denotation_compared"] += 1
             want = merge_text([t for t in parse_tokens(sec["TOKS2"]) if t[0] != "Z"])
@@ -294,8 +309,10 @@ def run(ck):
                 problems.append("implementation loses a tree the model calls clean")
         if problems:
             if "serialization" in problems and ok:
-                # model (pinned code) loses the tree on this input, the implementation does not: repaired in /repo
-                if m.get("TREE") is not None and strip_doctype_ids(m["TREE"]) != t1s:
+                # the pinned model loses the tree on this input (declarations at token level, CR / raw URI at
+                # character level), the implementation does not: repaired in /repo, not a broken tie
+                if (m.get("TREE") is not None and strip_doctype_ids(m["TREE"]) != t1s) or has_cr_or_nul(tree1) \
+                        or not plain_uris(tree1):
                     tolerated_fix(ck, "serializer output differs from the pinned model and round-trips")
                     continue
             bad_corr += 1
